@@ -49,7 +49,7 @@ def main():
                     shutil.copy(f"/repo/{x}", f"{d}/{x}")
             open(f"{d}/src/watchdog/{rel}", "w").write(new)
             try:
-                r = subprocess.run(["/venv/bin/python", "-m", "pytest", "-q", "-x", "-p", "no:cacheprovider", "--timeout=120", "--no-cov", *tests], cwd=d, capture_output=True, text=True, timeout=600)
+                r = subprocess.run(["/venv/bin/python", "-m", "pytest", "-q", "-x", "-p", "no:cacheprovider", "--timeout=120", "--no-cov", *tests], cwd=d, stdout=subprocess.DEVNULL, stderr=subprocess.DEVNULL, timeout=600)
                 rc = r.returncode
             except subprocess.TimeoutExpired:
                 rc = 99
@@ -57,9 +57,12 @@ def main():
         finally:
             shutil.rmtree(d, ignore_errors=True)
     res = []
+    log = open(out + "l", "w")
     with ThreadPoolExecutor(jobs) as ex:
         for n, r in enumerate(ex.map(one, todo)):
             res.append(r)
+            log.write(json.dumps(r) + "\n")
+            log.flush()
             if n % 50 == 0:
                 print(n, "done", sum(1 for x in res if x["tests"] in ("pass", "none-related")), "still alive", flush=True)
     json.dump(res, open(out, "w"), indent=1)
